@@ -3,6 +3,8 @@
 mod fabric;
 mod net;
 mod out;
+mod peers;
+mod raw;
 mod rng;
 mod size;
 mod smoke;
@@ -33,6 +35,8 @@ fn main() -> anyhow::Result<()> {
     let mut run = Run::new(&prop, seed, tier, work);
     match prop.as_str() {
         "C07" => wire::run_c07(&mut run, replay.as_deref(), &corpus)?,
+        "C04" => peers::run_c04(&mut run, replay.as_deref())?,
+        "C05" => peers::run_c05(&mut run, replay.as_deref())?,
         "C15" => match replay.as_deref() {
             Some(r) => size::replay(&mut run, r)?,
             None => size::run_c15(&mut run)?,
